@@ -245,10 +245,30 @@ pub fn from_state_map(m: &StateMap<Id>) -> SMap {
 
 /// One call of the real `resolve`; fresh HashMaps/HashSets (fresh RandomState seeds) every call.
 pub fn call_resolve(c: &ResolveCase, store: &Store, set_order: &[usize]) -> Result<SMap, ()> {
+    call_resolve_via(c, store, set_order, 0)
+}
+
+/// `how` selects the kind of iterator the state sets arrive in (`resolve` takes any `IntoIterator`):
+/// 0 a slice iterator (exact size), 1 a filtered iterator (size_hint lower bound 0), 2 a chained
+/// iterator over two halves, 3 a by-value iterator of references collected in a linked list.
+pub fn call_resolve_via(c: &ResolveCase, store: &Store, set_order: &[usize], how: usize) -> Result<SMap, ()> {
     let rules = rules_of(c.version);
     let sets: Vec<StateMap<Id>> = set_order.iter().map(|&i| to_state_map(&c.sets[i])).collect();
     let chains: Vec<HashSet<Id>> = set_order.iter().map(|&i| c.chains[i].iter().cloned().collect()).collect();
-    match ruma_state_res::resolve(&rules, sets.iter(), chains, |id| store.get(id).cloned()) {
+    let fetch = |id: &ruma_common::EventId| store.get(id).cloned();
+    let r = match how % 4 {
+        0 => ruma_state_res::resolve(&rules, sets.iter(), chains, fetch),
+        1 => ruma_state_res::resolve(&rules, sets.iter().filter(|_| true), chains, fetch),
+        2 => {
+            let (a, b) = sets.split_at(sets.len() / 2);
+            ruma_state_res::resolve(&rules, a.iter().chain(b.iter().take_while(|_| true)), chains, fetch)
+        }
+        _ => {
+            let l: std::collections::LinkedList<&StateMap<Id>> = sets.iter().collect();
+            ruma_state_res::resolve(&rules, l, chains, fetch)
+        }
+    };
+    match r {
         Ok(m) => Ok(from_state_map(&m)),
         Err(_) => Err(()),
     }
